@@ -76,3 +76,28 @@ pub fn vp_io_copy_fields<'d, W: Write>(r: &mut PreparedFields<'d>, w: &mut W) ->
 /// `format!("multipart/form-data; boundary={}", b)`
 #[verifier::external_body]
 pub fn vp_format_content_type(b: &str) -> (r: String) ensures str_bytes(r@) == str_bytes("multipart/form-data; boundary="@) + str_bytes(b@) { format!("multipart/form-data; boundary={}", b) }
+// ---- PreparedFields::from_fields: fields as added by the caller
+/// `Cow<'d, Path>` (R11: the file-system path type stays opaque; declaring `Path` itself trips Verus' trait-impl collection)
+#[verifier::external_body] pub struct CowPath<'d>(Cow<'d, Path>);
+/// text of a `Cow<str>`
+pub uninterp spec fn cow_str<'a>(c: &Cow<'a, str>) -> Seq<char>;
+/// `&field.name` where a `&str` is expected (deref coercion of `&Cow<str>`)
+#[verifier::external_body] pub fn vp_cow_as_str<'b, 'a>(c: &'b Cow<'a, str>) -> (r: &'b str) ensures r@ == cow_str(c) { &**c }
+/// `&boundary` where a `&str` is expected (deref coercion of `&String`)
+#[verifier::external_body] pub fn vp_string_as_str<'a>(s: &'a String) -> (r: &'a str) ensures r@ == s@ { s }
+/// `stream.filename.as_deref()`
+#[verifier::external_body] pub fn vp_opt_cow_as_deref<'b, 'a>(c: &'b Option<Cow<'a, str>>) -> (r: Option<&'b str>)
+    ensures (c is None <==> r is None), c matches Some(x) ==> r matches Some(y) && y@ == cow_str(&x) { c.as_deref() }
+/// `format!("\r\n--{}", super::gen_boundary())`: CRLF, two dashes, the fresh boundary (16 random alphanumerics: `rand`, assumed)
+#[verifier::external_body] pub fn vp_new_delimiter() -> (r: String)
+    ensures str_bytes(r@).len() == 20, str_bytes(r@).take(4) == seq![13u8, 10u8, 45u8, 45u8] { format!("\r\n--{}", gen_boundary()) }
+#[verifier::external_body] pub fn gen_boundary() -> (r: String) { unimplemented!() }
+pub open spec fn text_field_bytes(delim: Seq<u8>, name: Seq<char>, text: Seq<char>) -> Seq<u8> {
+    delim + str_bytes("\r\nContent-Disposition: form-data; name=\""@) + str_bytes(name) + dq() + seq![13u8, 10u8, 13u8, 10u8] + str_bytes(text)
+}
+/// `write!(text_data, "{}\r\nContent-Disposition: form-data; name=\"{}\"\r\n\r\n{}", boundary, field.name, text).unwrap()`
+#[verifier::external_body] pub fn vp_write_text_field(text_data: &mut Vec<u8>, boundary: &String, name: &Cow<str>, text: &Cow<str>)
+    ensures final(text_data)@ == old(text_data)@ + text_field_bytes(str_bytes(boundary@), cow_str(name), cow_str(text))
+{ write!(text_data, "{}\r\nContent-Disposition: form-data; name=\"{}\"\r\n\r\n{}", boundary, name, text).unwrap() }
+/// `boundary.push_str("--")`
+#[verifier::external_body] pub fn vp_push_dashes(s: &mut String) ensures str_bytes(final(s)@) == str_bytes(old(s)@) + seq![45u8, 45u8] { s.push_str("--") }
